@@ -706,7 +706,7 @@ Proof.
   induction sd as [|x r IH]; intros i done W HW.
   - cbn -[okown Qop]. leaf0; fin; try congruence.
     destruct (HW _ Hw) as [H | H]; auto. destruct (tempset_nil _ _ H).
-  - destruct x as [|sh|].
+  - destruct x as [|sh| |].
     + cbn -[okown Qop]. apply IH. intros ow Hw. destruct (HW _ Hw); auto.
       right. eapply tempset_skip; eauto. discriminate.
     + cbn -[okown own_is Qop move hok Nat.mul]. split.
@@ -734,6 +734,8 @@ Proof.
               ** subst x. rewrite own_is_refl in H2. discriminate.
     + cbn -[okown Qop]. apply IH. intros ow Hw. destruct (HW _ Hw); auto.
       right. eapply tempset_skip; eauto. discriminate.
+    + cbn -[okown Qop]. apply IH. intros ow Hw. destruct (HW _ Hw); auto.
+      right. eapply tempset_skip; eauto. discriminate.
 Qed.
 
 Lemma post_spawn_pairs (Q : mstate * nat -> (owner -> Prop) -> Prop) : forall sd i (T W : owner -> Prop) k,
@@ -745,7 +747,7 @@ Lemma post_spawn_pairs (Q : mstate * nat -> (owner -> Prop) -> Prop) : forall sd
 Proof.
   induction sd as [|x r IH]; intros i T W k HW HT Hk1 Hk0.
   - cbn. apply Hk1. intros ow Hw. destruct (HW _ Hw); auto.
-  - destruct x as [|sh|].
+  - destruct x as [|sh| |].
     + cbn. apply (IH (S i) T); auto. intros W' HW'. apply Hk1. intros ow Hw.
       destruct (HW' _ Hw) as [H | [H | H]]; auto. right; right. apply tempset_tail; auto.
     + cbn -[Nat.mul]. repeat split.
@@ -762,6 +764,7 @@ Proof.
       * apply Hk0. intros ow Hw. destruct (HW _ Hw); auto.
     + cbn. apply (IH (S i) T); auto. intros W' HW'. apply Hk1. intros ow Hw.
       destruct (HW' _ Hw) as [H | [H | H]]; auto. right; right. apply tempset_tail; auto.
+    + cbn. apply Hk0. intros ow Hw. destruct (HW _ Hw); auto.
 Qed.
 End Spawn.
 
@@ -1449,3 +1452,15 @@ Proof.
   destruct (run_prog (op_prog (fst st) o) (snd st)) as [r0 s0]. cbn in *.
   intros fd x [H | H]; [discriminate | eapply H1; eauto].
 Qed.
+
+(* a uv_spawn that fails during stdio setup (UV_EINVAL from a CREATE_PIPE container whose handle is
+   not a pipe) after an inherited stream and a created pair *)
+Definition failing_spawn_prog : list op :=
+  [OLoopInit 0 true; OHInit 0 TTcp true; OHInit 1 TPipe false;
+   OSpawn 2 [SdInherit; SdPipe 1; SdBadPipe] true].
+Lemma failing_spawn_example :
+  let st := run true stdio3 failing_spawn_prog [] in
+  hd (ERet RC_OK) (i_tr (snd st)) = ERet RC_ERR /\
+  fd_of (OHandle 0 HIo) (i_led (snd st)) = Some 11 /\ count_if is_temp (i_led (snd st)) = 0 /\
+  In (EClose 12 (OTemp 2)) (i_tr (snd st)) /\ In (EClose 13 (OTemp 3)) (i_tr (snd st)).
+Proof. vm_compute. repeat split; auto 10. Qed.
